@@ -537,4 +537,53 @@ theorem covers_update (kw p u : PDict) (hu : (u.map (·.1)).Nodup) (h1 : Covers 
     simp only [hl, Option.none_or] at hk
     exact h1 k hk
 
+
+/-! ### memo fields and constructor in one model -/
+
+
+/-- which layers of a chain survive a constructor of class `cls`: the wrapper of the same class is cut out (`mk_chain`) -/
+def keepOf (cls : Cls) (ch : List (Cls × PDict)) : List Bool := ch.map fun w => w.1 != cls
+
+/-- a decorated function together with the memo field `function_fullargspec` of every wrapper object of its chain
+(outermost first) -/
+structure WFnM where
+  fn : WFn
+  memos : Memos
+
+/-- what a program does with a decorated function as far as specifications are concerned -/
+inductive WOp where
+  | wrap (cls : Cls) (kw : PDict)      -- apply a decorator: `mk` on the chain, `mkMemos` on the memo fields
+  | request (depth : Nat)              -- `getargspec` of the object `depth` levels below the top
+
+def WOp.run (base : Sig) : WOp → WFnM → WFnM
+  | .wrap cls kw, f => { fn := mk cls kw f.fn, memos := mkMemos (keepOf cls f.fn.chain) f.memos }
+  | .request d, f => { f with memos := f.memos.take d ++ fillMemos base (f.memos.drop d) }
+
+def WOp.wrapOf : WOp → Option (Cls × PDict)
+  | .wrap cls kw => some (cls, kw)
+  | .request _ => Option.none
+
+theorem kept_length (g : Cls × PDict → Bool) : ∀ (ch : List (Cls × PDict)) (ms : Memos), ms.length = ch.length →
+    ((ms.zip (ch.map g)).filter (·.2)).length = (ch.filter g).length
+  | [], ms, _ => by simp
+  | w :: ch, [], h => by simp at h
+  | w :: ch, m :: ms, h => by
+      have ih := kept_length g ch ms (by simpa using h)
+      cases hg : g w <;> simp [List.filter, hg, ih]
+
+theorem fillMemos_length (base : Sig) : ∀ ms : Memos, (fillMemos base ms).length = ms.length
+  | [] => rfl
+  | some _ :: _ => rfl
+  | Option.none :: rest => by simp [fillMemos, fillMemos_length base rest]
+
+theorem foldl_fn (base : Sig) : ∀ (ops : List WOp) (f : WFnM),
+    (ops.foldl (fun f op => op.run base f) f).fn = mkMany (ops.filterMap WOp.wrapOf) f.fn
+  | [], f => rfl
+  | op :: ops, f => by
+      simp only [List.foldl_cons]
+      rw [foldl_fn base ops]
+      cases op with
+      | wrap cls kw => simp [WOp.run, WOp.wrapOf, mkMany]
+      | request d => simp [WOp.run, List.filterMap_cons, WOp.wrapOf]
+
 end Pyg
